@@ -518,6 +518,8 @@ def run_check(prop, tier, seed, jobs=16, only=None, scale=1.0):
             w = json.load(open(os.path.join(rdir, fn)))
             if only is not None and w["target"] not in only:
                 continue
+            if w["cfg"] not in cfgs:
+                continue        # regressions on configurations outside this tier are replayed by the thorough tier
             try:
                 build.ensure(w["cfg"])
             except build.BuildError:
